@@ -59,7 +59,10 @@ class SelectPoller(Poller):
                 event |= POLL_EVENT_TYPE.WRITE
             if descr in xlist:
                 event |= POLL_EVENT_TYPE.ERROR
-            self.__descrToCallbacks[descr](descr, event)
+            # a callback called earlier in this round may have unsubscribed this descriptor
+            callback = self.__descrToCallbacks.get(descr)
+            if callback is not None:
+                callback(descr, event)
 
 
 class PollPoller(Poller):
